@@ -168,6 +168,8 @@ class _ReturnRewriter(ast.NodeTransformer):
         if self.mode == 'return':
             return node
         if self.mode == 'assign':
+            if len(self.target) == 1 and ast.dump(self.target[0]).replace('Store()', 'Load()') == ast.dump(val):
+                return ast.copy_location(ast.Pass(), node)   # ``a, b = a, b``: the helper's locals already are the caller's
             new = ast.Assign(targets=[copy.deepcopy(t) for t in self.target], value=val, lineno=node.lineno, col_offset=node.col_offset)
             return ast.copy_location(new, node)
         # expression statement: keep the evaluation of the returned expression if it can have an effect
@@ -209,7 +211,8 @@ class Inliner:
     def _target(self, func: FuncInfo, call: ast.Call, stack: Tuple[int, ...]) -> Optional[FuncInfo]:
         fn = call.func
         name = fn.attr if isinstance(fn, ast.Attribute) else (fn.id if isinstance(fn, ast.Name) else None)
-        if name is None or not name.startswith('_') or (name.startswith('__') and name.endswith('__')) or name in ANCHORS:
+        local = self._local_function(func, fn)
+        if local is None and (name is None or not name.startswith('_') or (name.startswith('__') and name.endswith('__')) or name in ANCHORS):
             return None
         if any(isinstance(a, ast.Starred) for a in call.args) or any(k.arg is None for k in call.keywords):
             return None
@@ -233,10 +236,31 @@ class Inliner:
             if not (isinstance(recv, ast.Name) and (recv.id in ('self', 'cls') or self.prog.resolve_class(func.module, recv) is not None)):
                 return None
         for n in ast.walk(g.node):
-            if isinstance(n, (ast.Yield, ast.YieldFrom, ast.Global, ast.Nonlocal)):
+            if isinstance(n, (ast.Yield, ast.YieldFrom, ast.Global)) or (isinstance(n, ast.Nonlocal) and (local is None or n not in g.node.body)):
                 return None
         if not call.args and not call.keywords and accessor_value(g) is not None:
             return None   # a zero-argument accessor names a location: expression canonicalisation handles it
+        return g
+
+    @staticmethod
+    def _is_local(func: FuncInfo, g: FuncInfo) -> bool:
+        return func.nested.get(g.name) is g
+
+    def _local_function(self, func: FuncInfo, fn: ast.expr) -> Optional[FuncInfo]:
+        """``fn`` names a function defined directly inside ``func`` that is only ever *called* there (never passed on, stored or
+        returned): such a local function is a block of the enclosing function with a name, and is inlined like a private helper;
+        the variables it declares ``nonlocal`` are the enclosing function's own."""
+        if not isinstance(fn, ast.Name):
+            return None
+        g = func.nested.get(fn.id)
+        if g is None or isinstance(g.node, ast.Lambda) or g.node.decorator_list or g.is_async != func.is_async and g.is_async:
+            return None
+        called = {id(c.func) for c in ast.walk(func.node) if isinstance(c, ast.Call)}
+        for n in ast.walk(func.node):
+            if isinstance(n, ast.Name) and n.id == fn.id and isinstance(n.ctx, ast.Load) and id(n) not in called:
+                return None   # escapes as a value: a callback, not a block
+        if any(isinstance(n, ast.Name) and n.id == fn.id for n in ast.walk(g.node)):
+            return None       # recursive
         return g
 
     def _bind(self, g: FuncInfo, call: ast.Call, caller_names: Set[str]) -> Optional[Tuple[List[ast.stmt], Dict[str, ast.expr], Dict[str, str]]]:
@@ -264,7 +288,8 @@ class Inliner:
                 else:
                     return None
         body = _docstring_free(g.node.body)
-        assigned = _assigned_names(body)
+        shared = {n for st in g.node.body if isinstance(st, ast.Nonlocal) for n in st.names}
+        assigned = _assigned_names(body) - shared
         self._counter += 1
         pre: List[ast.stmt] = []
         mapping: Dict[str, ast.expr] = {}
@@ -294,7 +319,7 @@ class Inliner:
         g = self._target(func, call, stack)
         if g is None:
             return None
-        body = _normalise_ifs(copy.deepcopy(_docstring_free(g.node.body)))
+        body = _normalise_ifs([st for st in copy.deepcopy(_docstring_free(g.node.body)) if not isinstance(st, ast.Nonlocal)])
         if not _returns_in_tail_only(body):
             return None
         if mode == 'assign' and not _always_exits(body) and not any(isinstance(x, ast.Return) for s in body for x in ast.walk(s)):
@@ -304,8 +329,9 @@ class Inliner:
         if mode == 'assign' and target is not None:
             arg_names = {x.id for a in list(call.args) + [k.value for k in call.keywords] for x in ast.walk(a) if isinstance(x, ast.Name)}
             for t in target:
-                if isinstance(t, ast.Name) and t.id not in arg_names:
-                    names_for_collision.discard(t.id)
+                for tn in ([t] if isinstance(t, ast.Name) else list(t.elts) if isinstance(t, (ast.Tuple, ast.List)) else []):
+                    if isinstance(tn, ast.Name) and tn.id not in arg_names:
+                        names_for_collision.discard(tn.id)
         b = self._bind(g, call, names_for_collision)
         if b is None:
             return None
@@ -326,8 +352,12 @@ class Inliner:
         out = pre + new_body
         for s in out:
             ast.fix_missing_locations(s)
-        self.log.append(f'{func.qualname}: inlined {g.qualname} ({mode})')
-        self.inlined.setdefault(id(g.node), set()).add(func.qualname)
+        self.log.append(f'{func.qualname}: inlined {g.qualname} ({mode})' + (' (local function)' if g.parent is not None and g.cls is None and self._is_local(func, g) else ''))
+        key = id(g.node)
+        raw = getattr(func, 'origin_raw', None)
+        if raw is not None and self._is_local(func, g) and g.name in raw.nested:
+            key = id(raw.nested[g.name].node)   # the local function of the scratch copy stands for the one in the source
+        self.inlined.setdefault(key, set()).add(func.qualname)
         # recurse into the inlined helper's own helper calls (it was resolved in g's scope: use g for resolution)
         return self._process_block(g, out, caller_names | _assigned_names(out), stack + (id(g.node),)) if len(stack) < MAX_DEPTH else out
 
@@ -462,6 +492,12 @@ class Inliner:
                     pre = self._inline_stmt_call(func, s, inner, 'assign', [ast.Name(id=tmp, ctx=ast.Store())], names | {tmp}, stack)
                     if pre is not None:
                         new_t = ast.copy_location(ast.Name(id=tmp, ctx=ast.Load()), t)
+                        # a helper that boils down to one boolean expression (``if x is None: return False; return x.f()``) is put
+                        # back into the test as that expression: it is evaluated at the same point, and the rules read conditions
+                        folded = _fold_value(pre, tmp)
+                        if folded is not None:
+                            pre, val = folded
+                            new_t = ast.copy_location(val, t)
                         if holder is None:
                             s.test = new_t
                         elif attr_ == 'operand':
@@ -512,9 +548,13 @@ class Inliner:
                 if nm.startswith('_') and not (nm.startswith('__') and nm.endswith('__')) and nm not in ANCHORS:
                     cand = True
                     break
+                if isinstance(n.func, ast.Name) and nm in func.nested:
+                    cand = True
+                    break
         # ... and no conditional expression as the whole value of an assignment / return (lowered to if/else in the view)
         lower = any(isinstance(n, (ast.Assign, ast.AnnAssign, ast.Return)) and isinstance(getattr(n, 'value', None), ast.IfExp) for n in ast.walk(func.node))
-        if not cand and not lower:
+        aliases = _pure_aliases(func.node)
+        if not cand and not lower and not aliases:
             return func
         before = len(self.log)
         node = copy.deepcopy(func.node)
@@ -522,6 +562,7 @@ class Inliner:
             node.body = _lower_ifexp(node.body)
             self.log.append(f'{func.qualname}: conditional expressions lowered to if/else')
         tmp = FuncInfo(node, func.module, func.cls, func.parent)
+        tmp.origin_raw = func  # type: ignore[attr-defined]
         self.prog._index_nested(tmp, func.module)
         names = _assigned_names(node.body) | {a.arg for a in node.args.args + node.args.kwonlyargs}
         node.body = self._process_block(tmp, node.body, names, (id(func.node), id(node)))
@@ -535,8 +576,25 @@ class Inliner:
                 collect(g)
         collect(tmp)
         func.module.all_funcs[:] = [g for g in func.module.all_funcs if id(g) not in scratch]
+        al = _pure_aliases(node)
+        if al:
+            _propagate(node, al)
+            self.log.append(f'{func.qualname}: local aliases read through ({", ".join(sorted(al))})')
         if len(self.log) == before:
             return func
+        # a local function all of whose calls were inlined is no longer referenced: its definition goes (rules that walk the
+        # function would otherwise see its statements twice)
+        def prune(stmts: List[ast.stmt]) -> List[ast.stmt]:
+            keep = []
+            for st in stmts:
+                if isinstance(st, (ast.FunctionDef, ast.AsyncFunctionDef)) and id(st) in local_defs and not any(
+                        isinstance(x, ast.Name) and x.id == st.name and isinstance(x.ctx, ast.Load) for o in node.body if o is not st for x in ast.walk(o)):
+                    continue
+                keep.append(st)
+            return keep
+        local_defs = {id(st) for st in node.body if isinstance(st, (ast.FunctionDef, ast.AsyncFunctionDef))
+                      and any(l.endswith('(local function)') and f'.{st.name} (' in l for l in self.log[before:])}
+        node.body = prune(node.body)
         ast.fix_missing_locations(node)
         v = FuncInfo(node, func.module, func.cls, func.parent)
         v.origin = func  # type: ignore[attr-defined]
@@ -594,3 +652,90 @@ def _always_exits_or_assigns(stmts: List[ast.stmt], target) -> bool:
     if isinstance(last, ast.Try) and not last.finalbody:
         return _always_exits_or_assigns(last.orelse or last.body, target) and all(_always_exits_or_assigns(h.body, target) for h in last.handlers)
     return False
+
+
+def _fold_value(stmts: List[ast.stmt], tmp: str) -> Optional[Tuple[List[ast.stmt], ast.expr]]:
+    """``stmts`` ends by delivering one value into ``tmp`` through assignments at the tails of an if/else tree: return the
+    statements before that tail and the value as ONE expression (boolean constants become and/or/not, else a conditional
+    expression).  None when the tail does anything else."""
+    def value_of(block: List[ast.stmt]) -> Optional[ast.expr]:
+        if len(block) != 1:
+            return None
+        st = block[0]
+        if isinstance(st, ast.Assign) and len(st.targets) == 1 and isinstance(st.targets[0], ast.Name) and st.targets[0].id == tmp:
+            return st.value
+        if isinstance(st, ast.If) and st.orelse:
+            a, b = value_of(st.body), value_of(st.orelse)
+            if a is None or b is None:
+                return None
+            c = st.test
+            neg = ast.UnaryOp(op=ast.Not(), operand=c)
+            if isinstance(a, ast.Constant) and a.value is False:
+                return ast.BoolOp(op=ast.And(), values=[neg, b])
+            if isinstance(a, ast.Constant) and a.value is True:
+                return ast.BoolOp(op=ast.Or(), values=[c, b])
+            if isinstance(b, ast.Constant) and b.value is False:
+                return ast.BoolOp(op=ast.And(), values=[c, a])
+            if isinstance(b, ast.Constant) and b.value is True:
+                return ast.BoolOp(op=ast.Or(), values=[neg, a])
+            return ast.IfExp(test=c, body=a, orelse=b)
+        return None
+    if not stmts:
+        return None
+    v = value_of(stmts[-1:])
+    if v is None:
+        return None
+    if any(isinstance(n, ast.Name) and n.id == tmp for st in stmts[:-1] for n in ast.walk(st)):
+        return None
+    return stmts[:-1], ast.fix_missing_locations(ast.copy_location(v, stmts[-1]))
+
+
+def _pure_aliases(fn: ast.AST) -> Dict[str, ast.expr]:
+    """Locals bound exactly once, by ``name = <attribute chain>`` rooted at ``self`` / ``cls`` / a parameter or global that the function
+    never re-binds, where the function stores into none of the attributes of the chain: reading the local is reading the chain."""
+    if isinstance(fn, ast.Lambda):
+        return {}
+    stores: Dict[str, int] = {}
+    attr_stores: Set[str] = set()
+    cands: Dict[str, ast.expr] = {}
+    a = fn.args
+    params = {x.arg for x in a.posonlyargs + a.args + a.kwonlyargs} | ({a.vararg.arg} if a.vararg else set()) | ({a.kwarg.arg} if a.kwarg else set())
+    declared: Set[str] = set()
+    for n in ast.walk(fn):
+        if isinstance(n, ast.Name) and isinstance(n.ctx, (ast.Store, ast.Del)):
+            stores[n.id] = stores.get(n.id, 0) + 1
+        elif isinstance(n, ast.Attribute) and isinstance(n.ctx, (ast.Store, ast.Del)):
+            attr_stores.add(n.attr)
+        elif isinstance(n, ast.ExceptHandler) and n.name:
+            stores[n.name] = stores.get(n.name, 0) + 2
+        elif isinstance(n, (ast.Global, ast.Nonlocal)):
+            declared.update(n.names)
+        elif isinstance(n, (ast.FunctionDef, ast.AsyncFunctionDef)) and n is not fn:
+            stores[n.name] = stores.get(n.name, 0) + 2
+        elif isinstance(n, ast.Call) and isinstance(n.func, ast.Name) and n.func.id in ('setattr', 'delattr') and len(n.args) >= 2 and isinstance(n.args[1], ast.Constant):
+            attr_stores.add(str(n.args[1].value))
+    for st in ast.walk(fn):
+        if isinstance(st, ast.Assign) and len(st.targets) == 1 and isinstance(st.targets[0], ast.Name):
+            v = st.value
+            while isinstance(v, ast.Call) and isinstance(v.func, ast.Name) and v.func.id == 'cast' and len(v.args) == 2:
+                v = v.args[1]
+            attrs, root = [], v
+            while isinstance(root, ast.Attribute):
+                attrs.append(root.attr)
+                root = root.value
+            name = st.targets[0].id
+            if ((attrs or (isinstance(root, ast.Name) and root.id not in ('None', 'True', 'False'))) and isinstance(root, ast.Name) and stores.get(name) == 1 and name not in params and name not in declared
+                    and stores.get(root.id, 0) == 0 and root.id not in declared and root.id != name and not (set(attrs) & attr_stores)):
+                cands[name] = v
+    return cands
+
+
+def _propagate(fn: ast.AST, aliases: Dict[str, ast.expr]) -> None:
+    class T(ast.NodeTransformer):
+        def visit_Name(self, node: ast.Name):
+            if isinstance(node.ctx, ast.Load) and node.id in aliases:
+                return ast.copy_location(copy.deepcopy(aliases[node.id]), node)
+            return node
+    for i, st in enumerate(fn.body):
+        fn.body[i] = T().visit(st)
+    ast.fix_missing_locations(fn)
